@@ -32,7 +32,12 @@ pub fn compute_min_utxo(
     let overhead = 160;
 
     let total_bytes = if let Some(body) = tx_body {
-        let utxo = body.outputs.get(index as usize).unwrap();
+        let utxo = usize::try_from(index)
+            .ok()
+            .and_then(|index| body.outputs.get(index))
+            .ok_or_else(|| {
+                tx3_tir::compile::Error::CoerceError(format!("{index}"), "output index".to_string())
+            })?;
         let bytes = pallas::codec::minicbor::to_vec(utxo).unwrap().len() as i128;
         bytes + overhead
     } else {
